@@ -113,8 +113,12 @@ def main():
         base += F.f_mem((3,), deltas=[0, 16], ops=("MSTORE", "MLOAD", "MSTORE8"))
     base = list(dict.fromkeys(base))
     mem_pairs = F.f_mem_mutant_pairs(deltas=(0, 1, 32), length=2)
+    mem_pairs += F.f_mem_move_pairs(deltas=(0, 8, 40), length=3, n_stores=(1, 2))
     if tier == "thorough":
         mem_pairs += F.f_mem_mutant_pairs(deltas=(0, 16), ops=("MSTORE", "MSTORE8", "SSTORE"), length=3)
+        mem_pairs += F.f_mem_move_pairs(deltas=(0, 8, 16, 40), length=4)
+    else:
+        mem_pairs += F.f_mem_move_pairs(deltas=(0, 8, 16, 40), length=4)[::8]
     tasks = []
     osets = [gasol.optset("none", "gas", True, True, "greedy"), gasol.optset("none", "gas", False, True, "greedy"),
              gasol.optset("storage", "gas", True, True, "greedy"), gasol.optset("partition", "size", True, False, "greedy")]
